@@ -41,7 +41,9 @@ def main():
         return (M + M.conj().T) / 2, Qm
 
     cases = []
-    for n in (1, 2, 3, 6, 17, 40):
+    w = json.loads(sys.argv[1])
+    sizes = (1, 2, 3, 6, 17, 40) + ((80,) if w.get("tier") == "thorough" else ())
+    for n in sizes:
         for cplx in (False, True):
             cases.append((f"n={n} indefinite simple", rng.uniform(0.5, 1.5, n) * np.arange(1, n + 1) * rng.choice([-1, 1], n), cplx, None))
             if n >= 6:
